@@ -49,6 +49,9 @@ CHECKS['C17'] = dict(level='model_checking', design='1/C17',
 CHECKS['C18'] = dict(level='model_checking', design='1/C18',
      text='IniFile (read, set, write explicitly or on destruction, re-read) is executed symbolically on every INI text of up to 3 (thorough 4) lines drawn from 9 line templates with LF/CRLF and with/without a final newline, with symbolic set() targets and values, against a reference map and a comment-order check on the raw output; TabularDataFile write -> read is checked cell for cell on tables whose cells are symbolically numbers, empty strings or strings over separators, quotes and spaces. All over the in-memory stdio model.',
      note='Bounds in evidence. stdio = env/vstdio.c (trusted; native replays use real files). CSV numbers from a concrete set. Trusted: z3, engine IR semantics.')
+CHECKS['C11'] = dict(level='model_checking', design='1/C11',
+     text='WebSocket::send and WebSocket::receive (with the real Socket_ read/write loops underneath) are executed symbolically over a system-call-level socket model: send output is deframed by a reference RFC 6455 deframer, receive input is produced by a reference framer (symbolic payload bytes and mask key, both roles, 1-3 fragments cut at every position, a ping in between), for payload lengths at every header-format boundary; hostile headers (every first byte, boundary lengths in the 7/16/64-bit formats incl. bit 31 and bit 63 set) truncated at every offset must yield no memory error and no negative length.',
+     note='Bounds in evidence. Sockets = env/vsock.c (trusted). Sender mask key = the library RNG run concretely. Handshake: only the accept-key computation. Trusted: z3, engine IR semantics.')
 NA = {
 }
 ALL = ['C%02d' % i for i in range(1, 21)]
